@@ -45,9 +45,12 @@ def cases(tier, seed):
     n = 70 if tier == "quick" else 8000
     sizes = [6, 8, 12, 20, 40, 80, 150, 300, 600, 1200, 2500]
     for i in range(n):
-        fam = str(rng.choice(["voronoi", "voronoi", "merged", "polyhedron", "cubed_sphere", "latlon_global", "latlon_patch", "clustered"]))
+        fam = str(rng.choice(["voronoi", "voronoi", "merged", "polyhedron", "cubed_sphere", "latlon_global", "latlon_patch", "clustered", "sample"]))
         s = int(rng.integers(0, 2**31 - 1))
-        if fam == "voronoi":
+        if fam == "sample":  # real meshes from the sample files
+            d = gen.random_mesh(rng, 120 if tier == "quick" else 800, allow_partial=False, families=["sample"])
+            d["ops"] = []
+        elif fam == "voronoi":
             nn = int(sizes[int(rng.integers(0, len(sizes) if tier == "thorough" else len(sizes) - 1))])
             d = {"family": fam, "n": nn, "seed": s}
         elif fam == "merged":
@@ -67,7 +70,7 @@ def cases(tier, seed):
             d = {"family": fam, "n": int(rng.choice([20, 60, 150])), "seed": s}
         else:
             d = {"family": fam, "ne": int(rng.integers(2, 12))}
-        d["ops"] = [["rot", int(rng.integers(0, 10**6))]] if (rng.random() < 0.5 and fam not in ("latlon_global", "latlon_patch")) else []
+        d["ops"] = [["rot", int(rng.integers(0, 10**6))]] if (rng.random() < 0.5 and fam not in ("latlon_global", "latlon_patch", "sample")) else d.get("ops", [])
         yield {"kind": "mesh", "mesh": d, "tseed": int(rng.integers(0, 10**6)), "all_rules": bool(i % 4 == 0), "source": "face_vertices_xyz" if i % 3 == 2 else "topology"}
 
 
